@@ -5,7 +5,7 @@ import json, os
 GW, GAS, OPS, UPG, TOK, EX, ITS = "axelar-gateway", "axelar-gas-service", "axelar-operators", "upgrader", "interchain-token", "example", "interchain-token-service"
 
 
-def k(crate, harness, fns, bounded=None, mode=None, tier=None, all_obl=False):
+def k(crate, harness, fns, bounded=None, mode=None, tier=None, all_obl=False, also=None):
     d = {"crate": crate, "harness": harness, "functions": fns if isinstance(fns, list) else [fns]}
     if bounded:
         d["bounded"] = bounded
@@ -15,6 +15,8 @@ def k(crate, harness, fns, bounded=None, mode=None, tier=None, all_obl=False):
         d["tier"] = tier
     if all_obl:
         d["all_obl"] = True
+    if also:
+        d["also"] = also
     return d
 
 
@@ -77,15 +79,89 @@ checks = {
     },
     "C08": {
         "verus": ["C08."],
-        "kani": [gw_rotate_entry] + gw_approve[1:2] + [k(GW, C + "c01_validate_proof_entry", "AxelarGateway::validate_proof", all_obl=True)],
+        "kani": [gw_rotate_entry] + [dict(gw_approve[1], also=["C01.approve_only_with_valid_proof", "C01.approve_digest"])] + [k(GW, C + "c01_validate_proof_entry", "AxelarGateway::validate_proof", also=["C01.entry"])],
     },
     "C09": {
-        "kani": [gw_update_ts, k(GW, A + "c03_rotate_signers", "auth::rotate_signers", all_obl=False), gw_rotate_entry],
+        "kani": [gw_update_ts, k(GW, A + "c03_rotate_signers", "auth::rotate_signers", also=["C03.delay_flag_forwarded"]), gw_rotate_entry],
     },
     "C13": {
         "kani": [k(GW, C + "c13_call_contract", "AxelarGateway::call_contract")],
     },
 }
+
+
+T = "contract::verif::"
+tok = lambda h, f, **kw: k(TOK, T + h, "InterchainToken::" + f, **kw)
+gas = lambda h, f, **kw: k(GAS, T + h, "AxelarGasService::" + f, **kw)
+ops = lambda h, f, **kw: k(OPS, T + h, "AxelarOperators::" + f, **kw)
+
+token_all = [
+    tok("c12_transfer", "transfer"), tok("c12_transfer_notrap", "transfer", mode="notrap"),
+    tok("c12_approve", "approve"), tok("c12_allowance_query", "allowance / read_allowance"), tok("c12_balance_query", "balance"),
+    tok("c12_transfer_from", "transfer_from / spend_allowance"), tok("c12_transfer_from_notrap", "transfer_from", mode="notrap"),
+    tok("c12_burn", "burn"), tok("c12_burn_from", "burn_from"),
+    tok("c12_mint_from", "mint_from"), tok("c12_owner_mint", "mint"),
+    tok("c12_set_admin", "set_admin"), tok("c12_transfer_ownership_event", "transfer_ownership"),
+]
+token_admin = [tok("c06_token_add_minter", "add_minter"), tok("c06_token_remove_minter", "remove_minter"), tok("c06_token_transfer_ownership", "transfer_ownership"),
+               tok("c12_owner_mint", "mint"), tok("c12_set_admin", "set_admin")]
+gas_all = [gas("c14_pay_gas", "pay_gas"), gas("c14_add_gas", "add_gas"), gas("c14_collect_fees", "collect_fees"), gas("c14_refund", "refund"), gas("c14_constructor_and_view", "__constructor / gas_collector")]
+ops_all = [ops("c17_execute", "execute"), ops("c17_add_operator", "add_operator"), ops("c17_remove_operator", "remove_operator"), ops("c17_is_operator_and_ctor", "is_operator / __constructor")]
+upgrades = [
+    k(GW, C + "c15_gateway_upgrade", "AxelarGateway::upgrade (derived) -> std::upgrade"), k(GW, C + "c15_gateway_migrate", "AxelarGateway::migrate (derived) -> std::migrate"),
+    gas("c15_gas_upgrade", "upgrade (derived)"), gas("c15_gas_migrate", "migrate (derived)"),
+    ops("c15_operators_upgrade", "upgrade (derived)"), ops("c15_operators_migrate", "migrate (derived)"),
+    tok("c15_token_upgrade", "upgrade (derived)"), tok("c15_token_migrate", "migrate (derived)"),
+    k(UPG, T + "c15_upgrader_upgrade", "Upgrader::upgrade"),
+]
+checks["C12"] = {"kani": token_all}
+checks["C14"] = {"kani": gas_all}
+checks["C17"] = {"scans": ["c17_writers"], "kani": ops_all}
+checks["C15"] = {"kani": upgrades}
+checks["C16"] = {"kani": [k(GW, "executable::verif::c16_default_validate_message", "AxelarExecutableInterface::validate_message (default)"), k(EX, T + "c16_example_execute", "Example::execute"),
+                          k(GW, C + "c02_validate_message", "AxelarGateway::validate_message (the consumed approval: exactly once)", also=["C02.consume", "C02.refused"])]}
+checks["C06"] = {"kani": [
+    k(GW, C + "c06_gateway_transfer_ownership", "AxelarGateway::transfer_ownership"), k(GW, C + "c06_gateway_transfer_operatorship", "AxelarGateway::transfer_operatorship"),
+    k(GW, C + "c06_gateway_constructor", "AxelarGateway::__constructor"), gw_rotate_entry,
+    gas("c06_gas_transfer_ownership", "transfer_ownership"), gas("c14_collect_fees", "collect_fees"), gas("c14_refund", "refund"), gas("c14_constructor_and_view", "__constructor"),
+    ops("c06_operators_transfer_ownership", "transfer_ownership"), ops("c17_add_operator", "add_operator"), ops("c17_remove_operator", "remove_operator"),
+] + token_admin + [dict(h, also=["C15.upgrade_needs_owner", "C15.migrate_needs_owner"]) for h in upgrades[:-1]]}
+checks["C07"] = {"kani": [
+    tok("c12_transfer", "transfer"), tok("c12_approve", "approve"), tok("c12_transfer_from", "transfer_from"), tok("c12_burn", "burn"), tok("c12_burn_from", "burn_from"), tok("c12_mint_from", "mint_from"),
+    gas("c14_pay_gas", "pay_gas"), gas("c14_add_gas", "add_gas"),
+    ops("c17_execute", "execute"),
+    k(GW, C + "c13_call_contract", "AxelarGateway::call_contract", also=["C13.sender_authorised", "C13.auth_before"]), k(GW, C + "c02_validate_message", "AxelarGateway::validate_message", also=["C02.consumer_authorised", "C02.auth_before_write"]),
+    k(EX, T + "c07_example_send", "Example::send"),
+]}
+
+
+its = lambda h, f, **kw: k(ITS, T + h, "InterchainTokenService::" + f, **kw)
+its_c04 = its("c04_execute", "execute / execute_message / get_execute_params / deploy_interchain_token_contract / token_handler::give_token")
+checks["C04"] = {"kani": [its_c04, k(GW, "executable::verif::c16_default_validate_message", "AxelarExecutableInterface::validate_message (default)", also=["C16.default"]),
+                          its("c06_its_constructor_and_views", "__constructor / views", also=["C04.hub_chain_name_constant"])]}
+checks["C05"] = {"kani": [
+    its("c05_pay_gas_and_call_contract", "pay_gas_and_call_contract"), its("c05_interchain_transfer", "interchain_transfer / token_handler::take_token"),
+    k(ITS, "token_handler::verif::c05_take_token", "token_handler::take_token"), k(ITS, "token_handler::verif::c05_give_token", "token_handler::give_token"),
+    its_c04,
+]}
+checks["C11"] = {"kani": [
+    its("c11_id_derivations", "interchain_token_deploy_salt / interchain_token_id / canonical_token_deploy_salt"),
+    its("c11_deploy_interchain_token", "deploy_interchain_token / deploy_interchain_token_contract"),
+    its("c11_register_canonical_token", "register_canonical_token"), its("c11_registry_views", "token_address / token_manager_type"),
+    its_c04,
+    tok("c11_token_constructor", "__constructor"), tok("c11_token_views", "token_id / is_minter / decimals / name / symbol"),
+]}
+checks["C18"] = {"kani": [
+    its("c18_deploy_remote_interchain_token", "deploy_remote_interchain_token"), its("c18_deploy_remote_canonical_token", "deploy_remote_canonical_token"),
+    its("c18_deploy_remote_token", "deploy_remote_token"), its("c18_validate_token_metadata", "axelar_soroban_std::token::validate_token_metadata"),
+    its("c05_pay_gas_and_call_contract", "pay_gas_and_call_contract", also=["C05.only_trusted_destination", "C05.gas_then_call", "C05.payload_is"]),
+]}
+checks["C06"]["kani"] += [its("c06_its_set_trusted_chain", "set_trusted_chain"), its("c06_its_remove_trusted_chain", "remove_trusted_chain"), its("c06_its_constructor_and_views", "__constructor"),
+                           its("c06_its_transfer_ownership", "transfer_ownership"),
+                           its("c15_its_upgrade", "upgrade (derived)", also=["C15.upgrade_needs_owner"]), its("c15_its_migrate", "migrate (derived)", also=["C15.migrate_needs_owner"])]
+checks["C15"]["kani"] += [its("c15_its_upgrade", "upgrade (derived)"), its("c15_its_migrate", "migrate (derived)")]
+checks["C07"]["kani"] += [its("c05_interchain_transfer", "interchain_transfer"), its("c11_deploy_interchain_token", "deploy_interchain_token"),
+                           its("c18_deploy_remote_interchain_token", "deploy_remote_interchain_token")]
 
 if __name__ == "__main__":
     here = os.path.dirname(os.path.abspath(__file__))
